@@ -870,3 +870,17 @@ Example C03_burst_files_nonvacuous :
       collapse (p_out s) = collapse (concat (contracts_of (cfgx true true) false rp_world burst_ops)) /\
       In (mk FileMoved rp_df bf_ef) (p_out s) /\ length (p_out s) = 17%nat.
 Proof. split; [exact burst_ops_ok | exact burst_example]. Qed.
+
+(* why the side condition of the burst theorems is there: `chmod f; chmod f` back to back - the kernel coalesces the second
+   IN_ATTRIB into the first (1 record instead of 2), one FileModified is delivered; chunk by chunk this is not the two
+   contracts, up to collapse of the whole stream it is *)
+Example C03_burst_coalesce_example :
+  exists r k, construct (cfgx true true) kinit (w_fs rp_world) = Some (r, k) /\
+    let ops := [Chmod rp_df; Chmod rp_df] in
+    burst_ok (cfgx true true) rp_world ops /\
+    length (k_queue (fst (burst_end k rp_world ops))) = 1%nat /\ length (concat (seq_qs k rp_world ops)) = 2%nat /\
+    exists s0 s obs, pinit (Px true) rp_world = Some s0 /\
+      prun (Px true) s0 (burst_hist (Px true) ops [1%nat] [] 2) [] = Done (s, obs) /\
+      p_out s = [mk FileModified rp_df []] /\
+      collapse (p_out s) = collapse (concat (contracts_of (cfgx true true) false rp_world ops)).
+Proof. exact burst_coalesce_example. Qed.
